@@ -17,3 +17,8 @@ package single
 //@   ensures [allocations-are-the-block-destinations] old(dgs.pinOpts.ReplicationFactorMin) >= 0 ==> rootPin.Allocations == old(dgs.dests)
 //@   ensures [everywhere-means-empty] old(dgs.pinOpts.ReplicationFactorMin) < 0 ==> len(rootPin.Allocations) == 0
 //@   modifies rpcN, rpcLastSvc, rpcLastMethod, rpcLastArg, heap(api.Pin), heap(DAGService)
+
+//@ func New
+//@   opts trusted
+//@   ensures res != nil
+//@   modifies nothing
